@@ -95,10 +95,16 @@ def _cost_call(ctx, cfs, ts):
     if not ts:
         return None
     for n in ts:
-        if n[0] != 'call' or n[1] not in cfs:
+        if n[0] == 'call' and n[1] in cfs:
+            ch, par = cfs[n[1]]
+            res.append((n[2][ch - 1], n[2][par - 1]))
+            continue
+        # written inline, or through a helper with another signature (states and the parent's cost as arguments)
+        fields = cfs.get('__fields__')
+        sub = P.cost_pairs(ctx, cfs.get('__planner__'), T(n), fields[0], fields[1]) if fields else None
+        if sub is None:
             return None
-        ch, par = cfs[n[1]]
-        res.append((n[2][ch - 1], n[2][par - 1]))
+        res.extend(sub)
     return res
 
 
@@ -116,9 +122,10 @@ def run(ctx, tier):
             r_cost.violations.append(Violation('C17', 'C17.cost', path, 'cost-fn', why))
         for path in cfs:
             r_cost.inst('%s = parent.%s + distance(child.state, parent.state)' % (path, cf), ok=True)
-        if not cfs and not cprobs:
-            r_cost.violations.append(Violation('C17', 'C17.cost', p['adt'], 'no-cost-fn', 'no cost function found in %s (unrecognised shape)' % p['name']))
         sf = c['state_field']
+        n_fns = len(cfs)
+        cfs['__fields__'] = (cf, sf)
+        cfs['__planner__'] = p
         cont = T(('field', T(('param', 1, 'self')), cname))
         links, _pr = P.collect_links(ctx, p)
         # ---- push: cost field of the pushed literal
@@ -194,12 +201,12 @@ def run(ctx, tier):
             cc = _cost_call(ctx, cfs, cs['value'])
             okc = False
             why = 'the stored cost is not cost_fn(rewired node, new parent)'
+            new_parents = set()
+            for n in ps['value']:
+                if n[0] == 'agg' and n[2] == 'Some':
+                    new_parents |= n[3][0][1]
             if cc is not None:
                 J = cs['J']
-                new_parents = set()
-                for n in ps['value']:
-                    if n[0] == 'agg' and n[2] == 'Some':
-                        new_parents |= n[3][0][1]
                 okc = all(strip_clone(ch) == T(('index', cs['cont'], J)) and strip_clone(par) == T(('index', cs['cont'], frozenset(new_parents)))
                           for (ch, par) in cc) and ps['J'] == J
             r_cost.inst('%s: rewired node cost = cost_fn(node, new parent)' % b.path, ok=okc, site=fn.loc(blk))
@@ -233,6 +240,64 @@ def run(ctx, tier):
             if not okn:
                 r_rew.violations.append(Violation('C17', 'C17.rewire', b.path, 'candidates',
                                                   'the re-parented node is not drawn from the neighbour list of the new node', loc=fn.loc(blk)))
+            # every neighbour is considered: inside the loop over the neighbour list the re-parenting is skipped only by
+            # the failing edge of the cost comparison, the failing edge of the motion check, or the test "this neighbour is
+            # the new node's own parent"
+            loops = [L for L in fn.loops() if blk in L['body']]
+            if loops:
+                L = min(loops, key=lambda l: len(l['body']))
+                allowed = set()
+                for m in P.motion_calls(ctx, p):
+                    if m['fn'] is fn and m['block'] in L['body']:
+                        allowed |= set(m['false_edges'])
+                for sb_ in L['body']:
+                    si = fn.switch_info(sb_)
+                    if si is None or len(si[0]) != 1 or set(si[1].keys()) != {'0'}:
+                        continue
+                    q = next(iter(si[0]))
+                    neg = False
+                    while q[0] == 'unop' and q[1] == 'Not' and len(q[2]) == 1:
+                        q = next(iter(q[2]))
+                        neg = not neg
+                    f_t, t_t = si[1]['0'], si[2]
+                    if neg:
+                        f_t, t_t = t_t, f_t
+                    if q[0] == 'binop' and q[1] in ('Lt', 'Le', 'Gt', 'Ge') and (_cost_call(ctx, cfs, q[2]) is not None or _cost_call(ctx, cfs, q[3]) is not None):
+                        allowed.add((sb_, f_t))                 # not cheaper: skip
+                    elif (q[0] == 'call' and q[1] in ('std::cmp::PartialEq::eq', 'std::cmp::PartialEq::ne') and len(q[2]) == 2) or \
+                            (q[0] == 'binop' and q[1] in ('Eq', 'Ne')):
+                        sides = (q[2][0], q[2][1]) if q[0] == 'call' else (q[2], q[3])
+                        is_ne = q[1].endswith('ne') or q[1] == 'Ne'
+                        # one side reads the parent link of the node just pushed (or the value stored there)
+                        parentish = False
+                        parent_vals = set()
+                        for pu_ in P.pushes(ctx, p):
+                            if pu_['fn'] is fn and not pu_['in_setup']:
+                                pv_ = P.node_field(pu_['node'], pf)
+                                for x_ in (pv_ or ()):
+                                    if x_[0] == 'agg' and x_[2] == 'Some' and x_[3]:
+                                        parent_vals |= set(x_[3][0][1])
+                        for sd in sides:
+                            for n_ in walk(sd):
+                                if n_[0] == 'field' and n_[2] == pf and any(m_[0] == 'index' for m_ in n_[1]):
+                                    parentish = True
+                            inner = set()
+                            for n_ in sd:
+                                inner |= set(n_[3][0][1]) if (n_[0] == 'agg' and n_[2] == 'Some' and n_[3]) else {n_}
+                            if inner and parent_vals and inner == parent_vals:
+                                parentish = True        # compared with the very value stored as the new node's parent
+                        if parentish:
+                            allowed.add((sb_, f_t if is_ne else t_t))   # it is the parent: skip
+                outside = frozenset(x for x in range(fn.nb) if x not in L['body'])
+                rr = fn.reachable(L['header'], removed=frozenset(allowed), stop=outside | frozenset([blk]))
+                skipped = any(src_ in rr and src_ != blk for (src_, _d) in L['back_edges'])
+                r_rew.inst('%s: every neighbour is considered for rewiring (skipped only when not cheaper, not reachable, or the new node\'s parent)' % b.path,
+                           ok=not skipped, site=fn.loc(blk))
+                if skipped:
+                    r_rew.violations.append(Violation(
+                        'C17', 'C17.rewire', b.path, 'excluded',
+                        'a neighbour can be excluded from rewiring by a condition other than "not cheaper", "motion invalid" or "is the new '
+                        'node\'s parent": a node that would become strictly cheaper through the new node keeps its old parent', loc=fn.loc(blk)))
         if not stores:
             r_rew.violations.append(Violation('C17', 'C17.rewire', p['adt'], 'no-rewire', 'no write to an existing node found in %s (no rewiring?)' % p['name']))
 
